@@ -70,6 +70,16 @@ func genPreviewHistory(r *vc.Rand) []histItem {
 				pv.Key = pv.Tag
 			}
 			pv.IK = ""
+			switch r.Intn(6) { // a preview may carry an idempotency key like any other request
+			case 0:
+				pv.IK = "ik-" + pv.Tag // a key of its own
+			case 1:
+				if op.IK == "" {
+					op.IK = "ik-" + op.Tag
+					it.Op = op
+				}
+				pv.IK = op.IK // the key of the real request that follows
+			}
 			h = append(h, histItem{Op: pv, Restart: it.Restart})
 			it.Restart = false
 		}
